@@ -8,6 +8,7 @@ first = int(sys.argv[3]) if len(sys.argv) > 3 else 1
 focus = sys.argv[4] if len(sys.argv) > 4 else ""
 FOCUS = {
  "": "",
+ "deep": "\nAdditional requirement for this round: go for DEPTH. Both changes must need at least two things to coincide before they manifest (for example: a particular history of earlier operations AND an injected failure such as a panicking callback / failing system call / I/O error / crash at one specific point; or a boundary configuration AND a particular operation order; or two cooperating edits in different files that are each harmless alone). Prefer code paths that look rarely exercised (error paths, clean-up after failure, boundary arithmetic, second and later rounds of reuse, teardown) over the main path. A change that a five-line sequential test of the public API would expose is too shallow.\n",
  "schedule": "\nAdditional requirement for this round: BOTH changes must be concurrency defects — they must need a specific cross-thread interleaving (a window of a few instructions or a particular order of two threads' steps) or a weak-memory reordering to manifest, and must be invisible to every single-threaded sequence of operations (including re-entrant callbacks on one thread). Changes that merely remove a whole lock or make every concurrent run fail are too coarse: ordinary use must still work almost always.\n",
 }[focus]
 prop = next(json.loads(l) for l in open('/verif/properties.jsonl') if json.loads(l)['id'] == pid)
